@@ -141,8 +141,37 @@ def _ev(S, F, x, asg, tabs):
         if path == "core::num::<impl u8>::rotate_left" and len(args) == 2:
             v, k2 = _ev(S, F, args[0], asg, tabs), _ev(S, F, args[1], asg, tabs) % 8
             return ((v << k2) | (v >> (8 - k2))) & 0xFF
+        import re as _re
+        m_ = _re.search(r"TryFrom<u(16|32|64|size)> for u8>::try_from$", path)
+        if m_ and len(args) == 1:
+            v = _ev(S, F, args[0], asg, tabs)
+            if not isinstance(v, int):
+                raise _Unknown("try_from of %s" % (v,))
+            return ("Ok", v) if 0 <= v < 256 else ("Err", ("TryFromIntError",))
+        if path == "core::result::Result::<T, E>::ok" and len(args) == 1:
+            v = _ev(S, F, args[0], asg, tabs)
+            if isinstance(v, tuple) and v[:1] == ("Ok",):
+                return ("Some", v[1])
+            if isinstance(v, tuple) and v[:1] == ("Err",):
+                return ("None",)
+        if path.endswith("bool>::then_some") and len(args) == 2:
+            c_ = _ev(S, F, args[0], asg, tabs)
+            if isinstance(c_, int):
+                return ("Some", _ev(S, F, args[1], asg, tabs)) if c_ else ("None",)
         raise _Unknown("call %s" % path)
+    if k == "discr":
+        v = _ev(S, F, x[1], asg, tabs)
+        if isinstance(v, tuple) and v and v[0] in ("None", "Some", "Ok", "Err"):
+            return {"None": 0, "Some": 1, "Ok": 0, "Err": 1}[v[0]]
+        raise _Unknown("discriminant of %s" % (v,))
+    if k == "field" and x[1][0] == "variant" and x[2] == 0:
+        v = _ev(S, F, x[1][1], asg, tabs)
+        if isinstance(v, tuple) and v and v[0] == x[1][2] and len(v) > 1:
+            return v[1]
+        raise _Unknown("payload %s of %s" % (x[1][2], v))
     if k == "agg":
+        if x[1].endswith("Result::Ok"):
+            return ("Ok", _ev(S, F, x[2][0], asg, tabs))
         if x[1].endswith("Option::Some"):
             return ("Some", _ev(S, F, x[2][0], asg, tabs))
         if x[1].endswith("Option::None"):
